@@ -121,6 +121,13 @@ def translate_and_build(pid, log):
         if rc != 0:
             res["driver_ok"] = False
             res["errors"].append("driver build failed:\n" + _errors_of(out))
+        if res["driver_ok"] and os.path.exists(core.DRIVER):
+            # private copy of the driver: a later build (another check, an edit) must not pull it away mid-run
+            import shutil
+            priv = os.path.join(VERIF, "scratch", "driver_%s_%d" % (pid, os.getpid()))
+            shutil.copy2(core.DRIVER, priv)
+            core.DRIVER = priv
+            res["private_driver"] = priv
         rc, out = sh(["lake", "build"] + prop_modules(pid), cwd=LEAN, timeout=6000)
         log.append("[lake build %.1fs rc=%d]" % (time.time() - t0, rc))
         if rc != 0:
@@ -344,6 +351,11 @@ def run_check(pid, tier, seed, level, level_text=None):
     os.makedirs(os.path.join(VERIF, "evidence"), exist_ok=True)
     with open(os.path.join(VERIF, "evidence", "%s.json" % pid), "w") as f:
         json.dump(ev, f, indent=1, ensure_ascii=True, default=repr)
+    if b.get("private_driver"):
+        try:
+            os.remove(b["private_driver"])
+        except OSError:
+            pass
     for l in out_lines:
         print(l)
     status = "PASS" if exit_code == 0 else "FAIL"
